@@ -1877,6 +1877,214 @@ def catalogue_consistency(ctx):
 
 
 # ----------------------------------------------------------------------------- oracle
+# ----------------------------------------------------------------------------- translator: catalogue name tables -> lean/QGen/C17.lean
+TRANSLATED = {
+    "state_typical.py": ["get_state_names_1qubit", "_get_state_names_2qubit_typical", "get_state_names_2qubit",
+                         "_get_state_names_3qubit_typical", "get_state_names_3qubit", "_get_state_names_1qutrit_special_typical",
+                         "_get_state_names_1qutrit_typical", "get_state_names_1qutrit", "_get_state_names_2qutrit_typical",
+                         "get_state_names_2qutrit", "get_state_names"],
+    "povm_typical.py": ["get_povm_names_1qubit", "_get_povm_names_2qubit_typical", "get_povm_names_2qubit", "get_povm_names_3qubit",
+                        "get_povm_names_1qutrit", "get_povm_names_2qutrit", "get_povm_names", "get_povm_names_rank1",
+                        "get_povm_names_not_rank1", "get_povm_object_names"],
+    "gate_typical.py": ["get_gate_names_1qubit", "get_gate_names_2qubit", "get_gate_names_2qubit_asymmetric", "get_gate_names_3qubit",
+                        "get_gate_names_1qutrit_single_gellmann", "get_gate_names_1qutrit"],
+    "mprocess_typical.py": ["get_mprocess_names_type1_set_pure_state_vectors", "get_mprocess_names_type1_set_kraus_matrices",
+                            "get_mprocess_names_type1", "get_mprocess_names_type2", "get_mprocess_object_names"],
+}
+_LEAN_PRELUDE = '''/-! GENERATED by harness/c17.py:translate from quara/objects/*_typical.py (Python `ast`) on every run — do not edit.
+Name tables of the catalogues and the state-name validator, as the source defines them. -/
+namespace QGen.C17
+
+/-- `[sep.join(t) for t in itertools.product(*ls)]` (first factor slowest) -/
+def prodJoin (sep : String) : List (List String) → List String
+  | [] => [""]
+  | [l] => l
+  | l :: ls => l.flatMap fun a => (prodJoin sep ls).map fun b => a ++ sep ++ b
+
+'''
+
+
+def _lean_str(x):
+    assert isinstance(x, str) and all(32 <= ord(c) < 127 and c not in '"\\\\' for c in x), f"unsupported string literal {x!r}"
+    return '"' + x + '"'
+
+
+class _Tr:
+    """supported subset: list-of-string literals, `+`, calls of other translated 0-ary functions, local names,
+    `[a + b for a, b in product(P, Q)]`, `[sep.join(t) for t in product(A, B, ... [, repeat=k])]`, string literals as
+    iterables of characters; statements `x = E`, `x += E`, `x.append("lit")`, `x.extend(E)`, `return E`."""
+
+    def __init__(self, known):
+        self.known = known
+
+    def fail(self, node, why):
+        import ast
+        raise ValueError(f"translator: unsupported construct ({why}): {ast.dump(node)[:200]}")
+
+    def iterable(self, e, env):
+        import ast
+        if isinstance(e, ast.Constant) and isinstance(e.value, str):
+            return "[" + ", ".join(_lean_str(c) for c in e.value) + "]"
+        return self.expr(e, env)
+
+    def expr(self, e, env):
+        import ast
+        if isinstance(e, ast.List):
+            for x in e.elts:
+                if not (isinstance(x, ast.Constant) and isinstance(x.value, str)):
+                    self.fail(e, "list element is not a string literal")
+            return "[" + ", ".join(_lean_str(x.value) for x in e.elts) + "]"
+        if isinstance(e, ast.Name):
+            if e.id not in env:
+                self.fail(e, "unknown local name")
+            return e.id
+        if isinstance(e, ast.Call) and isinstance(e.func, ast.Name) and not e.args and not e.keywords:
+            if e.func.id not in self.known:
+                self.fail(e, "call of a function that is not translated")
+            return e.func.id
+        if isinstance(e, ast.BinOp) and isinstance(e.op, ast.Add):
+            return f"({self.expr(e.left, env)} ++ {self.expr(e.right, env)})"
+        if isinstance(e, ast.ListComp) and len(e.generators) == 1 and not e.generators[0].ifs:
+            gen = e.generators[0]
+            it = gen.iter
+            if not (isinstance(it, ast.Call) and isinstance(it.func, ast.Name) and it.func.id == "product"):
+                self.fail(e, "comprehension not over itertools.product")
+            rep = 1
+            for kw in it.keywords:
+                if kw.arg == "repeat" and isinstance(kw.value, ast.Constant) and isinstance(kw.value.value, int):
+                    rep = kw.value.value
+                else:
+                    self.fail(e, "product keyword")
+            args = [self.iterable(a, env) for a in it.args]
+            factors = "[" + ", ".join(args) + "]" if rep == 1 else f"(List.replicate {rep} ({args[0]}))" if len(args) == 1 else None
+            if factors is None:
+                self.fail(e, "product(A, B, repeat=k)")
+            elt = e.elt
+            if isinstance(gen.target, ast.Tuple) and isinstance(elt, ast.BinOp) and isinstance(elt.op, ast.Add) \
+                    and [t.id for t in gen.target.elts] == [elt.left.id, elt.right.id] and len(it.args) == 2 and rep == 1:
+                return f"(prodJoin \"\" {factors})"
+            if isinstance(gen.target, ast.Name) and isinstance(elt, ast.Call) and isinstance(elt.func, ast.Attribute) \
+                    and elt.func.attr == "join" and isinstance(elt.func.value, ast.Constant) and isinstance(elt.func.value.value, str) \
+                    and len(elt.args) == 1 and isinstance(elt.args[0], ast.Name) and elt.args[0].id == gen.target.id:
+                return f"(prodJoin {_lean_str(elt.func.value.value)} {factors})"
+            self.fail(e, "comprehension element")
+        self.fail(e, "expression")
+
+    def function(self, fn):
+        import ast
+        if fn.args.args or fn.args.kwonlyargs or fn.args.vararg:
+            self.fail(fn, "name-table function with parameters")
+        env, lines = set(), []
+        body = list(fn.body)
+        if body and isinstance(body[0], ast.Expr) and isinstance(body[0].value, ast.Constant):
+            body = body[1:]
+        for st in body:
+            if isinstance(st, ast.Assign) and len(st.targets) == 1 and isinstance(st.targets[0], ast.Name):
+                lines.append(f"  let {st.targets[0].id} : List String := {self.expr(st.value, env)}")
+                env.add(st.targets[0].id)
+            elif isinstance(st, ast.AugAssign) and isinstance(st.op, ast.Add) and isinstance(st.target, ast.Name) and st.target.id in env:
+                lines.append(f"  let {st.target.id} : List String := {st.target.id} ++ {self.expr(st.value, env)}")
+            elif isinstance(st, ast.Expr) and isinstance(st.value, ast.Call) and isinstance(st.value.func, ast.Attribute) \
+                    and isinstance(st.value.func.value, ast.Name) and st.value.func.value.id in env and len(st.value.args) == 1:
+                v, a = st.value.func.value.id, st.value.args[0]
+                if st.value.func.attr == "append" and isinstance(a, ast.Constant) and isinstance(a.value, str):
+                    lines.append(f"  let {v} : List String := {v} ++ [{_lean_str(a.value)}]")
+                elif st.value.func.attr == "extend":
+                    lines.append(f"  let {v} : List String := {v} ++ {self.expr(a, env)}")
+                else:
+                    self.fail(st, "method call")
+            elif isinstance(st, ast.Return):
+                lines.append(f"  {self.expr(st.value, env)}")
+                return f"def {fn.name} : List String :=\n" + "\n".join(lines) + "\n"
+            else:
+                self.fail(st, "statement")
+        self.fail(fn, "no return")
+
+
+def _validator(fn, known):
+    """`if name in f(): return True elif ... else: return False` -> Bool chain (anything else: fail loudly)"""
+    import ast
+    arg = fn.args.args[0].arg
+    node, conds = fn.body[0], []
+    while True:
+        if not (isinstance(node, ast.If) and isinstance(node.test, ast.Compare) and len(node.test.ops) == 1
+                and isinstance(node.test.ops[0], ast.In) and isinstance(node.test.left, ast.Name) and node.test.left.id == arg
+                and isinstance(node.test.comparators[0], ast.Call) and isinstance(node.test.comparators[0].func, ast.Name)
+                and node.test.comparators[0].func.id in known and not node.test.comparators[0].args
+                and len(node.body) == 1 and isinstance(node.body[0], ast.Return)
+                and isinstance(node.body[0].value, ast.Constant) and node.body[0].value.value is True):
+            raise ValueError("translator: is_valid_state_name is not a chain of `if name in <catalogue list>(): return True`: "
+                             + ast.dump(node)[:200])
+        conds.append(node.test.comparators[0].func.id)
+        if len(node.orelse) == 1 and isinstance(node.orelse[0], ast.If):
+            node = node.orelse[0]
+            continue
+        if len(node.orelse) == 1 and isinstance(node.orelse[0], ast.Return) and isinstance(node.orelse[0].value, ast.Constant) \
+                and node.orelse[0].value.value is False:
+            break
+        raise ValueError("translator: is_valid_state_name does not end in `else: return False`")
+    if len(fn.body) != 1:
+        raise ValueError("translator: is_valid_state_name has statements after the if-chain")
+    chain = " else ".join(f"if {c}.contains {arg} then true" for c in conds) + " else false"
+    return f"def {fn.name} ({arg} : String) : Bool :=\n  {chain}\n"
+
+
+def _guard(fn):
+    """the generators' name guard: which condition on `is_valid_state_name(name)` leads to `raise`"""
+    import ast
+    arg = fn.args.args[0].arg
+    body = [st for st in fn.body if not (isinstance(st, ast.Expr) and isinstance(st.value, ast.Constant))]
+
+    def is_valid_call(e):
+        return isinstance(e, ast.Call) and isinstance(e.func, ast.Name) and e.func.id == "is_valid_state_name" \
+            and len(e.args) == 1 and isinstance(e.args[0], ast.Name) and e.args[0].id == arg
+    st = body[0]
+    if isinstance(st, ast.If) and isinstance(st.test, ast.UnaryOp) and isinstance(st.test.op, ast.Not) and is_valid_call(st.test.operand) \
+            and isinstance(st.body[-1], ast.Raise) and not st.orelse \
+            and all(isinstance(x, ast.Assign) for x in st.body[:-1]):
+        pass        # if not is_valid_state_name(x): raise ...
+    elif isinstance(st, ast.If) and is_valid_call(st.test) and not st.orelse and isinstance(st.body[-1], ast.Return) \
+            and isinstance(body[-1], ast.Raise) and all(not isinstance(x, (ast.Return, ast.If, ast.For, ast.While, ast.Try)) for x in body[1:-1]):
+        pass        # if is_valid_state_name(x): ... return ...   <no other return>   raise ...
+    else:
+        raise ValueError(f"translator: {fn.name} is not guarded by is_valid_state_name as expected: " + ast.dump(st)[:200])
+    return (f"/-- `{fn.name}` raises (instead of yielding an object) exactly on these names -/\n"
+            f"def {fn.name}_rejects ({arg} : String) : Bool := !(is_valid_state_name {arg})\n")
+
+
+def translate(ctx):
+    """regenerates lean/QGen/C17.lean from the catalogue sources; raises on anything outside the supported subset"""
+    import ast
+    from common import REPO, LEAN
+    out = [_LEAN_PRELUDE]
+    known = set()
+    for fname, fns in TRANSLATED.items():
+        tree = ast.parse(open(os.path.join(REPO, "quara", "objects", fname)).read())
+        defs = {n.name: n for n in tree.body if isinstance(n, ast.FunctionDef)}
+        tr = _Tr(known)
+        out.append(f"/-! ### {fname} -/\n")
+        for f in fns:
+            if f not in defs:
+                raise ValueError(f"translator: {fname} no longer defines {f}")
+            out.append(tr.function(defs[f]))
+            known.add(f)
+        if fname == "state_typical.py":
+            out.append(_validator(defs["is_valid_state_name"], known))
+            out.append(_guard(defs["generate_state_pure_state_vector_from_name"]))
+            out.append(_guard(defs["generate_state_density_mat_from_name"]))
+    out.append("/-- every translated table by name (driver) -/\ndef table (t : String) : Option (List String) :=\n  match t with\n"
+               + "".join(f"  | \"{f}\" => some {f}\n" for fns in TRANSLATED.values() for f in fns) + "  | _ => none\n")
+    out.append("\nend QGen.C17\n")
+    text = "\n".join(out)
+    path = os.path.join(LEAN, "QGen", "C17.lean")
+    if not os.path.exists(path) or open(path).read() != text:
+        open(path, "w").write(text)
+    return []
+
+
+LEAN_EXTRA_TARGETS = ("QGen.C17",)
+
+
 PARTIAL = [
     {"theorem": "psdCert_sound / psdCert_iff", "missing": "soundness is proved for the polymorphic residual at complex numbers; the executed decider runs the same definitions at complex rationals (the per-entry certification is executed, not kernel-checked)"},
     {"theorem": "gate_of_unitary_tp / gate_of_unitary_choi_psd / state_of_pure_vector_physical / povm_of_onb_physical / kraus_tp / kraus_choi_psd / unitary_of_hamiltonian", "missing": "generic constructions on Mathlib matrices (all dimensions); that each catalogue entry IS such a construction with the textbook matrix is checked per entry by the oracle on the implementation, not proved"},
@@ -2087,7 +2295,34 @@ def correspondence(ctx):
                 k += 1
                 pend.append(("hsunitary", label + "/neg-control", False,
                              drv.ask("hsunitary", d, bs, _pc(gd["u"]), _pr(gd["hs"].T + 1e-6 * np.eye(d * d)[::-1]), eps)))
+    # generated name tables (QGen/C17.lean, translated from the source on this run) against the real functions
+    tabs = []
+    mods = {"state_typical.py": ST, "povm_typical.py": PT, "gate_typical.py": GT, "mprocess_typical.py": MT}
+    for fname, fns in TRANSLATED.items():
+        for f in fns:
+            tabs.append((f, list(getattr(mods[fname], f)()), drv.ask("names", f)))
+            ctx.count("generated name tables")
+    probes = sorted(set(ST.get_state_names()) | {nm for cat, _, nm, _ in near_miss_names(ctx.seed) if cat in ("state", "ensemble", "povm")}
+                    | set(BAD_NAMES["state"]) | {"", " ", "z0_z0_z0_z0", "a_a_a", "ghz", "werner_z0"})
+    valid = []
+    for nm in probes:
+        if all(ord(ch) < 0x110000 for ch in nm):
+            valid.append((nm, bool(ST.is_valid_state_name(nm)), drv.ask("isvalid", ",".join(str(ord(ch)) for ch in nm) or "-")))
+    ctx.count("generated is_valid_state_name probes", len(valid))
     out = drv.run(timeout=1500)
+    for f, impl, i in tabs:
+        ctx.corr_ops.add("names")
+        ctx.case(("names", f), nontrivial=True)
+        got = out[i].split()
+        model = [] if len(got) < 2 or got[1] == "-" else got[1].split(",")
+        if got[0] != "ok" or model != impl:
+            ctx.disagree("names", f, f"{len(impl)} names, first {impl[:3]}", out[i][:200])
+    for nm, impl, i in valid:
+        ctx.corr_ops.add("isvalid")
+        ctx.case(("isvalid", nm), nontrivial=True)
+        t = out[i].split()
+        if t[0] != "ok" or (t[1] == "true") != impl or (t[2] == "true") != (not impl) or (t[3] == "true") != (not impl):
+            ctx.disagree("isvalid", nm, f"is_valid_state_name={impl}", out[i][:100])
     for op, label, expect, i in pend:
         ctx.corr_ops.add(op)
         t = out[i].split()
